@@ -36,8 +36,12 @@ def git(gitdir, *args, check=True, inp=None):
                         "-c", "maintenance.auto=false", *args], input=inp,
                        stdout=subprocess.PIPE, stderr=subprocess.PIPE, env=GIT_ENV)
     if check and p.returncode != 0:
-        raise RuntimeError(f"git {' '.join(args)} failed ({p.returncode}): {p.stderr.decode('utf-8', 'replace')[-500:]}")
+        raise GitRefused(f"git {' '.join(args)} failed ({p.returncode}): {p.stderr.decode('utf-8', 'replace')[-300:]}")
     return p
+
+
+class GitRefused(RuntimeError):
+    """C git itself failed on the directory (e.g. its own consistency check of a stale multi-pack-index)."""
 
 
 # --------------------------------------------------------------------------- objects of the universe
@@ -546,8 +550,9 @@ def apply(root, side, act, args, who, w, opts, tref):
                 os.remove(base + ".idx")
                 git(g, "index-pack", f"--index-version={v}", "-o", base + ".idx", base + ".pack")
             else:
+                from dulwich.object_format import DEFAULT_OBJECT_FORMAT
                 from dulwich.pack import PackData, write_pack_index
-                pdta = PackData(base + ".pack")
+                pdta = PackData(base + ".pack", object_format=DEFAULT_OBJECT_FORMAT)
                 ents = pdta.sorted_entries()
                 cs = pdta.get_stored_checksum()
                 pdta.close()
